@@ -192,6 +192,9 @@ def run_case(case, ctx, objs=None):
     import pyg_base as pb
     ops = case['operands']
     objs = [live(o) for o in ops] if objs is None else objs
+    if case.get('reverse') is not None and isinstance(objs[case['reverse'] % len(objs)], (pd.Series, pd.DataFrame)):
+        j_ = case['reverse'] % len(objs)
+        objs[j_] = objs[j_].iloc[::-1]          # one operand runs newest-first: the same observations under the same labels
     ms = [m_of(o) for o in ops]
     before = snap_ops(objs)
     join, columns, op = case['join'], case['columns'], case['op']
@@ -261,6 +264,8 @@ def run_case(case, ctx, objs=None):
         if two:
             a, b = objs[0], objs[1]
             st, got = ctx.call(FN[op], a, b, **kw)
+            if case.get('reverse') is not None and st == 'ok' and isinstance(got, (pd.Series, pd.DataFrame)):
+                got = got.sort_index()           # the order of the result's rows is not claimed then, only label -> value
             exp = m_binary(op, ms[0], ms[1], join, columns)
             what = '%s_(%r, %r, join=%s, columns=%s)' % (op, ops[0], ops[1], join, columns)
             if st != 'ok':
@@ -275,6 +280,8 @@ def run_case(case, ctx, objs=None):
                     ctx.check('div_no_inf', not bool(np.any(np.isinf(np.asarray(got.values, dtype=float)))), lambda: '%s produced +-inf: %r' % (what, got))
                 if op in ('add', 'mul'):
                     st2, got2 = ctx.call(FN[op], b, a, **kw)
+                    if case.get('reverse') is not None and st2 == 'ok' and isinstance(got2, (pd.Series, pd.DataFrame)):
+                        got2 = got2.sort_index()
                     exp2 = m_binary(op, ms[1], ms[0], join, columns)
                     if st2 == 'ok':
                         compare(ctx, got2, exp, 'commuted ' + what, mon='commutative')
@@ -443,6 +450,9 @@ def gen_case(rng):
             else:
                 o['v'] = abs(o['v'])
     case = {'op': op, 'operands': operands, 'join': join, 'columns': columns, 'as_list': rng.random() < 0.6}
+    if len(operands) == 2 and op in ('add', 'sub', 'mul', 'div', 'min', 'max', 'gt', 'le') and rng.random() < 0.1:
+        case['reverse'] = rng.randrange(2)
+        return case
     if op in ('add', 'sub', 'mul', 'div') and len(operands) == 2 and all(o['k'] in ('series', 'scalar') for o in operands) and rng.random() < 0.4:
         case['method'] = 0          # the numeric fill method (4th parameter): holes of an operand at joint timestamps count as 0
     return case
